@@ -93,7 +93,7 @@ class MiniLoop(asyncio.AbstractEventLoop):
         self._exc.append(ctx)
 
     def run_in_executor(self, executor, fn, *args):
-        if executor is None or not isinstance(executor, InlineExecutor):
+        if executor is None or not hasattr(executor, 'submit') or isinstance(executor, concurrent.futures.ThreadPoolExecutor):
             executor = InlineExecutor()
         return asyncio.wrap_future(executor.submit(fn, *args), loop=self)
 
